@@ -32,7 +32,7 @@ def configs(tier):
                         continue
                     for tr in TRANSFORMS:
                         for par in ("plain", "sym"):
-                            if q and par == "sym" and tr in ("scale025", "scale3"):
+                            if q and tr in ("scale025", "scale3") and (par == "sym" or n1 + n2 > 2 or be == "pyx"):
                                 continue
                             if q and spike and par == "sym" and n1 + n2 > 3:
                                 continue
@@ -116,7 +116,8 @@ def program(E, cfg):
         src = n - 1 - k if rev else k
         E.prove(E.eq(q.x[k], ft(p.x[src])), "time axis is transformed, nothing else")
     if disc:
-        for k in range(n):
+        # the two edge entries carry no event ("never count"): only their times are compared
+        for k in range(1, n - 1):
             src = n - 1 - k if rev else k
             E.prove(E.eq(q.y[k], sign * p.y[src]), "profile values unchanged (mirrored%s under reversal)"
                     % (" and negated" if meas == "order" else ""))
